@@ -218,14 +218,14 @@ class FortranAST:
     def get_object(self, FQSN: str):
         def find_child_by_name(parent, name):
             for child in parent.children:
-                if child.name == name:
+                if child.name.lower() == name.lower():
                     return child
                 if child.name.startswith("#GEN_INT"):
                     found = next(
                         (
                             int_child
                             for int_child in child.get_children()
-                            if int_child.name == name
+                            if int_child.name.lower() == name.lower()
                         ),
                         None,
                     )
